@@ -316,7 +316,7 @@ static void run_c17_type(int ptype, bool thorough) {
         auto ob = [](const m5::subscribe_options& o) { return uint8_t((uint8_t(o.retain_handling) << 4) | (uint8_t(o.retain_as_published) << 3) | (uint8_t(o.no_local) << 2) | uint8_t(o.max_qos)); };
         std::vector<std::string> filters = {"a/b", "#", "+/x/#", "$share/grp/a/+", std::string(65535, 'f')};
         std::vector<std::pair<m5::subscribe_props, Props>> pvs;
-        for (int sid : {0, 1, 127, 128, 268435455}) for (int u = 0; u < 3; ++u) { Props q; if (sid) q.push_back(ref::pnum(0x0B, uint32_t(sid))); for (int i = 0; i < u; ++i) q.push_back(ref::ppair(i ? "k2" : "k", "v")); m5::subscribe_props sp; glue::from_ref(sp, q); pvs.emplace_back(sp, q); }
+        for (int sid : {0, 1, 127, 128, 16383, 16384, 2097151, 2097152, 268435455}) for (int u = 0; u < 3; ++u) { Props q; if (sid) q.push_back(ref::pnum(0x0B, uint32_t(sid))); for (int i = 0; i < u; ++i) q.push_back(ref::ppair(i ? "k2" : "k", "v")); m5::subscribe_props sp; glue::from_ref(sp, q); pvs.emplace_back(sp, q); }
         auto call = [&](uint16_t pid, const std::vector<m5::subscribe_topic>& ts, const m5::subscribe_props& sp, const Props& q, const char* space) {
             Packet x; x.type = ref::SUBSCRIBE; x.flags = 2; x.has_pid = true; x.pid = pid; x.props = q; for (auto& t : ts) x.filters.emplace_back(t.topic_filter, ob(t.sub_opts));
             c17_check(st, enc::encode_subscribe(pid, ts, sp), x, space); };
